@@ -72,6 +72,10 @@ def _zero(t):
     return t
 
 
+def dom_of(args):
+    return [t.sort() for t in args]
+
+
 def uf_shape_value(st, base, args, shape):
     """A value of `shape` determined by the z3 terms `args` (uninterpreted functions named after `base`)."""
     base = f"{base}/{'.'.join(str(t.sort())[0] for t in args)}"  # one function per signature
@@ -141,7 +145,35 @@ def uf_shape_value(st, base, args, shape):
                         s_.assume(ps(*args, V._z(k)) >= 0)
                     return mk_int(ps(*args, V._z(k)))
 
+            cfns = {}
+            if isinstance(shp.elem, S.Tup):
+                # component prefix sums for the plain-int components of a tuple element, as for fresh sequences
+                # (seqs.fresh_seq): cps_c(i+1) = cps_c(i) + elt(i)[c], instantiated at every index that is read
+                cfns = {c: z3.Function(f"{base}{path}#psum{c}", *dom_of(args), z3.IntSort(), z3.IntSort()) for c, sh in enumerate(shp.elem.items) if isinstance(sh, S._Int)}
+                if cfns:
+                    tup_get = getter
+
+                    def getter(i, cfns=cfns, tup_get=tup_get, args=args):  # noqa: F811
+                        v = tup_get(i)
+                        zi = V._z(i)
+                        for c, f in cfns.items():
+                            V.cur().assume(f(*args, zi + 1) == f(*args, zi) + V._z(v[c]))
+                        return v
+
             seq = SSeq(mk_int(n), getter, shp.elem, psum, f"{base}{path}")
+            for c, f in cfns.items():
+
+                def cps(k, f=f, args=args):
+                    s_ = V.cur()
+                    done = s_.ghost.setdefault("cps_base_assumed", set())
+                    base_eq = f(*args, z3.IntVal(0)) == 0
+                    if base_eq.get_id() not in done or s_.capture is not None:  # (the terms stay referenced by the path condition)
+                        if s_.capture is None:
+                            done.add(base_eq.get_id())
+                        s_.assume(base_eq)
+                    return mk_int(f(*args, V._z(k)))
+
+                seq.cpsum[c] = cps
             return seq if shp.tuple_ else LRef(seq)
         raise Unsupported(f"uninterpreted result of shape {shp!r}")
 
